@@ -121,7 +121,7 @@ pub fn expand(text: &str, ci: usize) -> (Outcome, bool) {
 
 // ------------------------------------------------------------------ (a) token soups
 
-const VOCAB: [&str; 64] = [
+pub const VOCAB: [&str; 64] = [
     "|>", "=>", "?>", "..", ">.", "->", "<|", "<=", "!>", "=>[]", ">@>", "?|>@", "?|>", "|n>", "?&!>", "^^>", "^@", "?^@", "?@", ">^>", "<->", "??", "<<<", ">>>", "~", ",", ",", ",", "let", "mut", "=", "x", "f", "g",
     "map", "then", "and_then", "n", "map =>", "then =>", "and_then =>", "1", "\"s\"", "'c'", "|v| v", "|a, b| a", "Some(1)", "Vec<_>", "len()", "_", "&x", "futures_crate_path(::futures)", "custom_joiner(j)",
     "custom_joiner(m!)", "transpose_results(false)", "transpose_results(true)", "lazy_branches(true)", "lazy_branches(false)", "::", ";", "?", "!", "|", ">",
@@ -330,7 +330,7 @@ thread_local! {
 }
 
 /// known finding: a `let` name that is a keyword
-fn let_name_is_keyword(text: &str) -> bool {
+pub fn let_name_is_keyword(text: &str) -> bool {
     let Ok(ts) = proc_macro2::TokenStream::from_str(text) else { return false };
     match catch_unwind(AssertUnwindSafe(|| syn::parse2::<JoinInputDefault>(ts))) {
         Ok(Ok(p)) => p.branches.iter().any(|b| b.id().map(|pat| syn::parse_str::<syn::Ident>(&pat.ident.to_string()).is_err()).unwrap_or(false)),
